@@ -61,6 +61,9 @@ func init() {
 			mk("ComputeIfPresent‖Set", CacheCfg{}, []string{"set 1"}, [][]string{{"cipc 1"}, {"set 1"}})
 			mk("Get(load)‖Set", CacheCfg{}, nil, [][]string{{"load 1 val"}, {"set 1"}})
 			mk("BulkGet‖Set", CacheCfg{}, []string{"set 2"}, [][]string{{"bulk 1,2,1 full"}, {"set 1"}})
+			// a BulkGet whose missing keys are all being loaded by someone else invokes no loader (and records no load)
+			mk("Get‖BulkGet(all joined)", CacheCfg{}, nil, [][]string{{"load 1 val"}, {"bulk 1 full"}})
+			mk("Get‖BulkGet(one joined)", CacheCfg{}, []string{"set 3"}, [][]string{{"load 1 val"}, {"bulk 1,3 full"}})
 			mk("Set‖Set(evicting)", CacheCfg{MaxSize: 1}, []string{"set 1"}, [][]string{{"set 2", "get 1"}, {"set 3", "get 2"}})
 			// the eviction policy meets a node that was already replaced or removed: it must not be counted as an eviction
 			mk("update‖insert-evict", CacheCfg{MaxSize: 2}, []string{"set 1", "set 2"}, [][]string{{"set 1"}, {"set 3"}})
@@ -144,6 +147,19 @@ func init() {
 			a := baseAlphabet([]int{1, 2, 3}, cfg, true)
 			jobs = append(jobs, seqJob(seqParams{Cfg: cfg, Alphabet: a, Kinds: kinds}, depth, 4, budget))
 		}
+		// a table that holds expired-but-unswept and live entries side by side when InvalidateAll (or anything else) runs
+		for _, cfg := range []CacheCfg{
+			{Expiry: "writing", TTL: 100, ClockStart: 1 << 40},
+			{MaxSize: 8, Expiry: "writing", TTL: 100, ClockStart: 1 << 40},
+		} {
+			var pre [][]string
+			for _, order := range [][]int{{1, 2, 3, 4}, {4, 3, 2, 1}, {2, 4, 1, 3}} {
+				// the first two keys of the order expire (deadline 100 < clock 110), the last two stay live (deadline 160)
+				pre = append(pre, []string{fmt.Sprintf("set %d", order[0]), fmt.Sprintf("set %d", order[1]), "adv 60", fmt.Sprintf("set %d", order[2]), fmt.Sprintf("set %d", order[3]), "adv 50"})
+			}
+			a := []string{"invall", "inv 1", "inv 4", "set 1", "set 4", "cleanup", "get 2", "cw 3", "adv 60"}
+			jobs = append(jobs, seqJob(seqParams{Cfg: cfg, Alphabet: a, Kinds: kinds, Prefixes: pre}, 2, 2, 60))
+		}
 		return jobs
 	}
 
@@ -161,6 +177,19 @@ func init() {
 		spread := []uint64{hsh(0, 1), hsh(2, 2), hsh(4, 3), hsh(6, 4), hsh(0, 5), hsh(2, 6), hsh(1, 7), hsh(3, 8), hsh(1, 9), hsh(3, 10), hsh(5, 11)}
 		fill8 := []string{"set 0", "set 1", "set 2", "set 3", "set 4", "set 6", "set 7", "set 8"}
 		jobs = append(jobs, concJob("All‖grow", CacheCfg{Hashes: spread, InitCap: 1}, fill8, [][]string{{"all"}, {"set 5", "inv 1"}}, or, "small", pb, false, 8, budget, "iterations-checked", "table-grew"))
+		// every iterator after every short history, with maintenance still queued in the executor (a key whose write has
+		// returned is present for the whole iteration)
+		for _, cfg := range []CacheCfg{{MaxSize: 3, Executor: "deferred"}, {MaxWeight: 6, Executor: "deferred"}, {MaxSize: 3, Expiry: "writing", TTL: 100, Executor: "deferred", ClockStart: 1 << 40}} {
+			a := []string{"set 1", "set 2", "set 3", "set 4", "inv 1", "get 2", "all", "keys", "values", "coldest", "hottest", "runexec", "cleanup"}
+			if cfg.Expiry != "" {
+				a = append(a, "adv 100")
+			}
+			depth := 4
+			if thorough {
+				depth = 5
+			}
+			jobs = append(jobs, seqJob(seqParams{Cfg: cfg, Alphabet: a, Kinds: []string{"result-mismatch", "iteration-duplicate", "expired-observed"}}, depth, 4, 60))
+		}
 		return jobs
 	}
 
